@@ -9,8 +9,8 @@ from props import judges
 from props.common import TRUSTED_BASE, ASSUMPTIONS
 
 ID = "C14"
-LEAN_MODULES = ["LexVerif.Props.C14"]
-GEN = ["write_tables"]
+LEAN_MODULES = ["LexVerif.Props.C14", "LexVerif.Props.Literals.WriteFloatOptions", "LexVerif.Props.Literals.WriteFloatShared", "LexVerif.Props.Literals.WriteFloatAlgorithm", "LexVerif.Props.Literals.WriteFloatCompact", "LexVerif.Props.Literals.WriteFloatBinary", "LexVerif.Props.Literals.WriteFloatHex", "LexVerif.Props.Literals.WriteFloatRadix", "LexVerif.Props.Literals.WriteFloatWrite"]
+GEN = ["write_tables", "literals"]
 TRUSTED = TRUSTED_BASE + [
     "the digit generators (Dragonbox / Grisu) are not part of C14: theorems quantify over every digit list; the correspondence "
     "feeds the implementation's own default-option digits to the formatting model (judge op jfmt), so it also covers compact builds",
